@@ -64,7 +64,8 @@ def spec(i, o):
             ("referred => B + floor(A*(UNIT-B)/UNIT), i.e. 1 - (1-A)(1-B) up to rounding",
              And(o["some"], ref).implies(And((r - b) * UNIT <= x, x < (r - b + 1) * UNIT))),
             ("0% <= discount <= 100%", o["some"].implies(And(r >= 0, r <= UNIT))),
-            ("referred discount >= unreferred discount and >= the referral discount", And(o["some"], ref).implies(And(r >= a, r >= b)))]
+            ("referred discount >= unreferred (rank) discount", And(o["some"], ref).implies(r >= a)),
+            ("referred discount >= the referral discount", And(o["some"], ref).implies(r >= b))]
 
 
 def obligations(tier):
